@@ -57,7 +57,7 @@ def turn_class(lab, nxt):
     if lab == "ReadLoop":
         return 6 if nxt == "ReadLoop" else None        # one read step
     if lab == "Return":
-        return 7                                       # the call runs to its end (up to the goroutine's next getter entry)
+        return 7                                       # the goroutine runs the rest of its program (its other table use included)
     return None
 
 
@@ -159,7 +159,7 @@ def check(tier):
             gmps = [rng.choice([1, 2, 4, 16]) for _ in scns]
             lock = __import__("threading").Lock()
             once_n = [0]
-            gate_info = {"schedules": 0, "turns": 0, "passed": 0, "stutter": 0, "adversarial": 0, "generated": None}
+            gate_info = {"schedules": 0, "turns": 0, "passed": 0, "stutter": 0, "adversarial": 0, "generated": None, "function_entries_inside_getters": None}
 
             def do_scn(k):
                 scn, gmp = scns[k], gmps[k]
@@ -206,6 +206,41 @@ def check(tier):
                 scheds, sched_stats = generate_schedules(work, 9 if tier == "quick" else 60)
                 gate_info["generated"] = sched_stats
 
+                # calibration: one cold single-goroutine process counts the function entries made inside each getter while it
+                # constructs its table; the build-step gates of replay k are then placed at a fraction f of that count and at
+                # every halving of the rest (f = 0: the first three entries instead), so that the other goroutines arrive in an
+                # early, a middle or a late window of the construction.  Positions only choose WHERE a goroutine may be delayed.
+                cal = suites.conc_scenario(1998, random.Random(vlib.seed() * 7919 + 1799), 1, first_ops=["base"])
+                cal["schedule"] = [[1, 1], [1, 2], [1, 4], [1, 5], [1, 7], [1, 1], [1, 2], [1, 4], [1, 5], [1, 7]]      # through both getters, gates open
+                cal["gate_wait_ms"] = 500
+                cal["gate_getters"] = gids["getters"]
+                cal["gate_builders"] = gids.get("builders", [])
+                rc, out, tj, cj = run_scenario(drv, cal, work, "cal", 1)
+                if rc != 0:
+                    raise Infra("calibration run of the gated driver failed (rc=%d):\n%s" % (rc, out[-2000:]))
+                counts = json.load(open(cj + ".counts")) if os.path.exists(cj + ".counts") else {}
+                gate_info["function_entries_inside_getters"] = counts
+                FRACTIONS = [15 / 16, 0, 7 / 8, 1 / 2, 31 / 32, 1 / 16, 3 / 4, 1 / 4]
+                ordinal, seen_v = {}, {}
+                for k, sc in enumerate(scheds):          # the j-th schedule of each variant gets the j-th fraction
+                    ordinal[k] = seen_v.get(sc["variant"], 0)
+                    seen_v[sc["variant"]] = ordinal[k] + 1
+
+                def positions(k):
+                    out = {}
+                    f = FRACTIONS[ordinal[k] % len(FRACTIONS)]
+                    for gid in [str(x) for x in gids["getters"]]:
+                        n = counts.get(gid, 0)
+                        if n < 16:      # nothing was constructed under this getter in the calibration run (the other one did it all)
+                            n = max(list(counts.values()) + [0])
+                        if n < 16:
+                            continue
+                        pos = [1, 2, 3] if f == 0 else [max(1, int(f * n))]
+                        while len(pos) < 6 and pos[-1] < n - 1:
+                            pos.append(max(pos[-1] + 1, n // 2) if f == 0 and len(pos) == 3 else pos[-1] + max(1, (n - pos[-1]) // 2))
+                        out[gid] = pos
+                    return out
+
                 def do_gated(k):
                     sc = scheds[k]
                     srng = random.Random(vlib.seed() * 7919 + 1800 + k)
@@ -213,6 +248,8 @@ def check(tier):
                     scn["schedule"] = sc["turns"]
                     scn["gate_getters"] = gids["getters"]
                     scn["gate_builders"] = gids.get("builders", [])
+                    scn["gate_positions"] = positions(k)
+                    scn["gate_wait_ms"] = 80        # a goroutine whose entry counter moves is busy and is waited for; this is the patience with a blocked one
                     scn["schedule_from"] = {"variant": sc["variant"], "use": sc["use"], "violates_Once_in_the_model": sc["bad"]}
                     rc, out, tj, cj = run_scenario(drv, scn, work, "g", srng.choice([1, 4, 16]))
                     if rc != 0:
@@ -224,6 +261,9 @@ def check(tier):
                         gate_info["passed"] += res.count("p")
                         gate_info["stutter"] += res.count("s") + res.count("l")
                         gate_info["adversarial"] += 1 if sc["bad"] else 0
+                        gate_info.setdefault("replays", []).append({"scenario": scn["id"], "variant": sc["variant"], "use": sc["use"], "violates_Once_in_the_model": sc["bad"],
+                                                                    "fraction": FRACTIONS[ordinal[k] % len(FRACTIONS)],
+                                                                    "turns": " ".join("%d:%s" % (t[0], "? GE BE BS BX GX RS END".split()[t[1]]) for t in sc["turns"]), "turn_results": res})
                     jobs.append(("api", scn, ex.submit(vlib.validate_trace, work, tj)))
                     if ids and os.path.getsize(cj) > 0:
                         idf = os.path.join(work.dir, "ids-%d.json" % scn["id"])
